@@ -45,6 +45,26 @@ def socket_send_to(ex, args, callee):
     return send_to(ex, args, callee)
 
 
+@stub('UdpSocket::connect', 'UnixDatagram::connect')
+def socket_connect(ex, args, callee):
+    sock = ex.deref_all(args[0])
+    dest = ex.deref_all(args[1]) if isinstance(args[1], Ref) else args[1]
+    f = ex.fresh('connect_fail', 'bool')
+    if ex.choose([z3.Not(f), f], free=True) == 1:
+        e = io_error(ex, 'connect-%d' % len(ex.events))
+        ex.events.append(('connect', sock.ident, dest, 'err', e))
+        return err(e)
+    ex.events.append(('connect', sock.ident, dest, 'ok'))
+    return ok(UNIT)
+
+
+@stub('UdpSocket::send', 'UnixDatagram::send')
+def socket_send(ex, args, callee):
+    # a send on a connected socket goes to whatever peer the socket was bound to at connect time - which is not "the
+    # address / path given" any more once that name is re-bound; recorded as a send to the pseudo-destination 'connected-peer'
+    return send_to(ex, [args[0], args[1], Native('ConnectedPeer', None, fresh_id())], callee)
+
+
 @stub('UdpSocket::try_clone', 'UnixDatagram::try_clone')
 def socket_try_clone(ex, args, callee):
     # a duplicated descriptor refers to the same socket
